@@ -68,6 +68,8 @@ impl Kind {
 }
 
 pub struct TargetDesc {
+    /// `#[serde(deny_unknown_fields)]`: a body with a part the type has no field for does not fit its shape
+    strict: bool,
     id: &'static str,
     fields: &'static [(&'static str, Kind)],
     decode: fn(&[u8]) -> Result<Obs, String>,
@@ -85,24 +87,31 @@ pub struct TargetDesc {
 #[derive(Deserialize)] struct N0<'a> { #[serde(rename = "é n")] x: String, #[serde(rename = "a[]", borrow)] y: Vec<File<'a>> }
 #[derive(Deserialize)] struct N1<'a> { #[serde(rename = "é n", borrow)] x: Option<File<'a>>, #[serde(rename = "a[]")] y: Option<String> }
 
+// targets that declare their shape closed
+#[derive(Deserialize)] #[serde(deny_unknown_fields)] struct D0 { a: String }
+#[derive(Deserialize)] #[serde(deny_unknown_fields)] struct D1<'a> { #[serde(borrow)] a: Option<File<'a>>, b: Option<&'a str> }
+
 fn obs_t6(t: &T6<'_>) -> Obs { vec![FieldObs::VF(t.a.iter().map(fo).collect()), FieldObs::OS(t.b.map(str::to_string))] }
 
 macro_rules! dec { ($T:ty, |$t:ident| $obs:expr) => { |b: &[u8]| from_bytes::<$T>(b).map(|$t| $obs).map_err(|e| e.to_string()) } }
 
 static TARGETS: &[TargetDesc] = &[
-    TargetDesc { id: "T0{a:&str}", fields: &[("a", Kind::S)], decode: dec!(T0, |t| vec![FieldObs::S(t.a.to_string())]) },
-    TargetDesc { id: "T1{a:String,b:String}", fields: &[("a", Kind::S), ("b", Kind::S)], decode: dec!(T1, |t| vec![FieldObs::S(t.a), FieldObs::S(t.b)]) },
-    TargetDesc { id: "T2{a:File}", fields: &[("a", Kind::F)], decode: dec!(T2, |t| vec![FieldObs::F(fo(&t.a))]) },
-    TargetDesc { id: "T3{a:Option<File>}", fields: &[("a", Kind::OF)], decode: dec!(T3, |t| vec![FieldObs::OF(t.a.as_ref().map(fo))]) },
-    TargetDesc { id: "T4{a:Vec<File>}", fields: &[("a", Kind::VF)], decode: dec!(T4, |t| vec![FieldObs::VF(t.a.iter().map(fo).collect())]) },
-    TargetDesc { id: "T5{a:String,b:File}", fields: &[("a", Kind::S), ("b", Kind::F)], decode: dec!(T5, |t| vec![FieldObs::S(t.a), FieldObs::F(fo(&t.b))]) },
-    TargetDesc { id: "T6{a:Vec<File>,b:Option<&str>}", fields: &[("a", Kind::VF), ("b", Kind::OS)], decode: dec!(T6, |t| obs_t6(&t)) },
-    TargetDesc { id: "T7{a:Option<File>,b:Vec<File>}", fields: &[("a", Kind::OF), ("b", Kind::VF)],
+    TargetDesc { strict: false, id: "T0{a:&str}", fields: &[("a", Kind::S)], decode: dec!(T0, |t| vec![FieldObs::S(t.a.to_string())]) },
+    TargetDesc { strict: false, id: "T1{a:String,b:String}", fields: &[("a", Kind::S), ("b", Kind::S)], decode: dec!(T1, |t| vec![FieldObs::S(t.a), FieldObs::S(t.b)]) },
+    TargetDesc { strict: false, id: "T2{a:File}", fields: &[("a", Kind::F)], decode: dec!(T2, |t| vec![FieldObs::F(fo(&t.a))]) },
+    TargetDesc { strict: false, id: "T3{a:Option<File>}", fields: &[("a", Kind::OF)], decode: dec!(T3, |t| vec![FieldObs::OF(t.a.as_ref().map(fo))]) },
+    TargetDesc { strict: false, id: "T4{a:Vec<File>}", fields: &[("a", Kind::VF)], decode: dec!(T4, |t| vec![FieldObs::VF(t.a.iter().map(fo).collect())]) },
+    TargetDesc { strict: false, id: "T5{a:String,b:File}", fields: &[("a", Kind::S), ("b", Kind::F)], decode: dec!(T5, |t| vec![FieldObs::S(t.a), FieldObs::F(fo(&t.b))]) },
+    TargetDesc { strict: false, id: "T6{a:Vec<File>,b:Option<&str>}", fields: &[("a", Kind::VF), ("b", Kind::OS)], decode: dec!(T6, |t| obs_t6(&t)) },
+    TargetDesc { strict: false, id: "T7{a:Option<File>,b:Vec<File>}", fields: &[("a", Kind::OF), ("b", Kind::VF)],
         decode: dec!(T7, |t| vec![FieldObs::OF(t.a.as_ref().map(fo)), FieldObs::VF(t.b.iter().map(fo).collect())]) },
-    TargetDesc { id: "N0{é n:String,a[]:Vec<File>}", fields: &[("é n", Kind::S), ("a[]", Kind::VF)],
+    TargetDesc { strict: false, id: "N0{é n:String,a[]:Vec<File>}", fields: &[("é n", Kind::S), ("a[]", Kind::VF)],
         decode: dec!(N0, |t| vec![FieldObs::S(t.x), FieldObs::VF(t.y.iter().map(fo).collect())]) },
-    TargetDesc { id: "N1{é n:Option<File>,a[]:Option<String>}", fields: &[("é n", Kind::OF), ("a[]", Kind::OS)],
+    TargetDesc { strict: false, id: "N1{é n:Option<File>,a[]:Option<String>}", fields: &[("é n", Kind::OF), ("a[]", Kind::OS)],
         decode: dec!(N1, |t| vec![FieldObs::OF(t.x.as_ref().map(fo)), FieldObs::OS(t.y)]) },
+    TargetDesc { strict: true, id: "D0{a:String}!closed", fields: &[("a", Kind::S)], decode: dec!(D0, |t| vec![FieldObs::S(t.a)]) },
+    TargetDesc { strict: true, id: "D1{a:Option<File>,b:Option<&str>}!closed", fields: &[("a", Kind::OF), ("b", Kind::OS)],
+        decode: dec!(D1, |t| vec![FieldObs::OF(t.a.as_ref().map(fo)), FieldObs::OS(t.b.map(str::to_string))]) },
 ];
 const WIRE_TARGET: usize = 6;
 
@@ -230,13 +239,14 @@ fn judge(exp: &Expect, obs: &Observed, t: &TargetDesc) -> Verdict {
         Observed::Panic(p) => Verdict::Violation { field: None, symptom: format!("panic:{}", panic_kind(p)) },
         Observed::Abort(s) => Verdict::Violation { field: None, symptom: format!("abort:{s}") },
         Observed::Err(_) => {
-            let must = exp.fields.iter().any(|alts| alts.iter().all(|a| matches!(a, Alt::Err)));
+            let must = exp.fields.iter().any(|alts| alts.iter().all(|a| matches!(a, Alt::Err))) || (t.strict && exp.unknown);
             let may = must || exp.unknown || exp.fields.iter().any(|alts| alts.iter().any(|a| matches!(a, Alt::Err)));
             if !may { return Verdict::Violation { field: None, symptom: "refused-should-accept".into() } }
             Verdict::Pass { ambiguous: !must, key: format!("err:{tid}") }
         }
         Observed::Val(v) => {
             if v.len() != exp.fields.len() { return Verdict::Violation { field: None, symptom: "wrong-field-count".into() } }
+            if t.strict && exp.unknown { return Verdict::Violation { field: None, symptom: "accepted-should-refuse:undeclared-part-into-closed-type".into() } }
             let mut ambiguous = exp.unknown;
             for (i, (alts, o)) in exp.fields.iter().zip(v).enumerate() {
                 let vals: Vec<&FieldExp> = alts.iter().filter_map(|a| match a { Alt::Val(e) => Some(e), Alt::Err => None }).collect();
@@ -408,7 +418,7 @@ fn opts_quick() -> Vec<EncOpts> {
 
 fn families(tier: Tier) -> Vec<Family> {
     let ab: &[&'static str] = &["a", "b"];
-    let main_targets: Vec<usize> = (0..8).collect();
+    let main_targets: Vec<usize> = (0..8).chain([10usize, 11]).collect();
     let quick = tier == Tier::Quick;
     let mut v = Vec::new();
     // F1: every form of ≤ 2 parts over the full part alphabet
